@@ -1,6 +1,7 @@
 package lookup
 
 import (
+	"context"
 	"fmt"
 	"os"
 	"runtime/pprof"
@@ -35,6 +36,8 @@ type Result struct {
 	Overflow bool
 	// Panic is the recovered panic value, printed ("" = none).
 	Panic string
+	// Stalled (CallCancelled only): the call had not returned within the limit after its context was cancelled.
+	Stalled bool
 }
 
 // OK reports a call that returned no error, closed its channel and did not panic.
@@ -185,4 +188,90 @@ func MaybeProfile() (stop func()) {
 	}
 	pprof.StartCPUProfile(f)
 	return func() { pprof.StopCPUProfile(); f.Close() }
+}
+
+// runCancel executes call on its own goroutine with an UNBUFFERED channel; the consumer (the caller's goroutine) takes
+// up to `take` elements, then cancels the context and receives nothing more. It waits up to limit for the call to
+// return: a producer that cannot return unless somebody keeps receiving is reported (Stalled), not waited for.
+func runCancel[T any](call func(context.Context, chan<- T) error, key func(T) string, take int, limit time.Duration) Result {
+	var r Result
+	ctx, cancel := context.WithCancel(context.Background())
+	defer cancel()
+	ch := make(chan T)
+	done := make(chan struct{})
+	var err error
+	var pnc interface{}
+	go func() {
+		defer close(done)
+		pnc = common.Guard(func() { err = call(ctx, ch) })
+	}()
+	timer := time.NewTimer(limit)
+	defer timer.Stop()
+recv:
+	for len(r.Keys) < take {
+		select {
+		case v, ok := <-ch:
+			if !ok {
+				r.Closed = true
+				break recv
+			}
+			r.Keys = append(r.Keys, key(v))
+		case <-done:
+			break recv
+		case <-timer.C:
+			r.Stalled = true
+			return r
+		}
+	}
+	cancel()
+	select {
+	case <-done:
+	case <-timer.C:
+		r.Stalled = true
+		return r
+	}
+	if pnc != nil {
+		r.Panic = fmt.Sprint(pnc)
+	}
+	if err != nil {
+		r.Err = err.Error()
+	}
+	calls.Add(1)
+	return r
+}
+
+// CallCancelled performs q on g, takes at most `take` results, cancels the context and stops receiving.
+func CallCancelled(g storage.Graph, q Query, lo *storage.LookupOptions, take int, limit time.Duration) Result {
+	type cx = context.Context
+	switch q.M {
+	case Objects:
+		return runCancel(func(ctx cx, c chan<- *triple.Object) error { return g.Objects(ctx, q.S, q.P, lo, c) }, ObjKey, take, limit)
+	case Subjects:
+		return runCancel(func(ctx cx, c chan<- *node.Node) error { return g.Subjects(ctx, q.P, q.O, lo, c) }, NodeKey, take, limit)
+	case PredicatesForSubject:
+		return runCancel(func(ctx cx, c chan<- *predicate.Predicate) error { return g.PredicatesForSubject(ctx, q.S, lo, c) }, PredKey, take, limit)
+	case PredicatesForObject:
+		return runCancel(func(ctx cx, c chan<- *predicate.Predicate) error { return g.PredicatesForObject(ctx, q.O, lo, c) }, PredKey, take, limit)
+	case PredicatesForSubjectAndObject:
+		return runCancel(func(ctx cx, c chan<- *predicate.Predicate) error {
+			return g.PredicatesForSubjectAndObject(ctx, q.S, q.O, lo, c)
+		}, PredKey, take, limit)
+	case TriplesForSubject:
+		return runCancel(func(ctx cx, c chan<- *triple.Triple) error { return g.TriplesForSubject(ctx, q.S, lo, c) }, TripleKey, take, limit)
+	case TriplesForPredicate:
+		return runCancel(func(ctx cx, c chan<- *triple.Triple) error { return g.TriplesForPredicate(ctx, q.P, lo, c) }, TripleKey, take, limit)
+	case TriplesForObject:
+		return runCancel(func(ctx cx, c chan<- *triple.Triple) error { return g.TriplesForObject(ctx, q.O, lo, c) }, TripleKey, take, limit)
+	case TriplesForSubjectAndPredicate:
+		return runCancel(func(ctx cx, c chan<- *triple.Triple) error {
+			return g.TriplesForSubjectAndPredicate(ctx, q.S, q.P, lo, c)
+		}, TripleKey, take, limit)
+	case TriplesForPredicateAndObject:
+		return runCancel(func(ctx cx, c chan<- *triple.Triple) error {
+			return g.TriplesForPredicateAndObject(ctx, q.P, q.O, lo, c)
+		}, TripleKey, take, limit)
+	case Triples:
+		return runCancel(func(ctx cx, c chan<- *triple.Triple) error { return g.Triples(ctx, lo, c) }, TripleKey, take, limit)
+	}
+	return Result{Panic: fmt.Sprintf("lookup.CallCancelled: unknown method %d", q.M)}
 }
